@@ -4,6 +4,9 @@
 import Fx.Eval
 import Fx.Xdr
 import Fx.Lemmas.Advance
+import Fx.Lemmas.Local
+import Fx.Lemmas.Fuel
+import Fx.Lemmas.EmitPlans
 namespace Fx.C03
 open Fx
 
@@ -29,5 +32,27 @@ example : evalImpl ⟨[], [], []⟩ ⟨[⟨"s", false, .struct [.plain "a" (.one
     .ok (.struct "s" ["a", "b"] (.cons (.u32 1) (.cons (.u32 2) .nil))) ⟨8, [9], []⟩ := by
   simp [evalImpl, Plans.findImpl, evalFields, evalField, evalBasic, readPrim, Res.map, readU32_be32, fieldNameOf,
     List.append_assoc, safeName, isKeyword, rustKeywords]
+
+/-- **C03 (locality).**  For ALL byte strings and all plans whose size impls are exact: a successful decode consumed a prefix
+    `pre` of the buffer, and on EVERY buffer that starts with `pre` — whatever follows, however long — the decoder returns the
+    same value and stops at the same place.  "The result does not depend on what follows the value in the buffer."
+    (Only the allocation log may differ: the reservation looks at `remaining()`.) -/
+theorem C03_locality (a : Ast) (p : Plans) (hp : p.SizeExact' = true) (fuel : Nat) (name : String) (c : Cur) (v : Val) (c' : Cur)
+    (h : evalImpl a p fuel name c = .ok v c') :
+    ∃ pre, c.data = pre ++ c'.data ∧ c'.off = c.off + pre.length ∧
+      ∀ (s2 : List Byte) (l2 : List Ev), ∃ l2', evalImpl a p fuel name ⟨c.off, pre ++ s2, l2⟩ = .ok v ⟨c'.off, s2, l2'⟩ :=
+  (eval_local a p hp fuel).1 name c v c' h
+
+/-- the same for every supported specification (`Supported a` implies exact size impls) -/
+theorem C03_locality_supported (a : Ast) (m : Module) (hs : Supported a = true) (hg : generateModule a = .ok m)
+    (fuel : Nat) (name : String) (c : Cur) (v : Val) (c' : Cur) (h : evalImpl a m.plans fuel name c = .ok v c') :
+    ∃ pre, c.data = pre ++ c'.data ∧ c'.off = c.off + pre.length ∧
+      ∀ (s2 : List Byte) (l2 : List Ev), ∃ l2', evalImpl a m.plans fuel name ⟨c.off, pre ++ s2, l2⟩ = .ok v ⟨c'.off, s2, l2'⟩ :=
+  C03_locality a m.plans (supported_plans hs hg).2 fuel name c v c' h
+
+/-- the recursion budget of the model is not observable: any answer other than "out of fuel" is the answer at every larger budget -/
+theorem C03_fuel_irrelevant (a : Ast) (p : Plans) (name : String) (c : Cur) (f g : Nat) (hfg : f ≤ g)
+    (h : evalImpl a p f name c ≠ .outOfFuel) : evalImpl a p g name c = evalImpl a p f name c :=
+  evalImpl_fuel_mono a p name c f g hfg h
 
 end Fx.C03
